@@ -19,6 +19,7 @@ Inferable(rt) == \A i \in DOMAIN rt.leaves : InferableLeaf(rt.leaves[i])
 RtVerdict(rt, tree) ==
   IF rt.enc # "ok" THEN "JSON encoding failed"
   ELSE IF rt.dec # "ok" THEN "decoding the encoded bytes failed (" \o rt.dec \o ")"
+  ELSE IF ~rt.reuse_same THEN "decoding the same bytes into an expression value that was used before gives another expression"
   ELSE IF ~rt.validate2 THEN "the decoded expression does not validate"
   ELSE IF ~rt.reenc_same THEN "re-encoding gives other bytes"
   ELSE IF ~rt.str_same THEN "the decoded expression prints differently"
